@@ -7,7 +7,9 @@ EXPLANATION = (
     "container's domain, the domain being derived from the shift expressions / word extents of the container itself. R19.2 (= R05.3): nominal "
     "typing of the container typedef family at every call boundary. R19.3: on every path of each X_next that returns an element the cursor "
     "is provably non-zero, and every iteration site tests the cursor. R19.4: from {cursor 0, no positive members} each signed iterator has a "
-    "feasible path into its negatives branch (path-sensitive constant propagation).")
+    "feasible path into its negatives branch (path-sensitive constant propagation). R19.5: bit 0 of the positive word is the representation tag: "
+    "every member bit stored into it is `1 << E` with E > 0 on every path, stored and new value are split by the same predicate, and the tag "
+    "word is never overwritten after bitset insertions.")
 NOT_DECIDED = "set semantics over all insertion sequences (membership/iteration equality for every subset); the behaviour itself"
 TRUSTED = ["clang 14 parser/CFG builder", "echse-facts extractor", "python rule engines in /verif/sa"]
 LEVEL_TEXT = ("Static verdict on necessary structural clauses of C19: parser guards inside container domains, nominal typing of the container "
@@ -26,4 +28,6 @@ def run(prog, rep, tier, snap):
     bitint.r19_3(prog, rep)
     rep.rule("R19.4", "negatives reachable from a fresh cursor", 4)
     bitint.r19_4(prog, rep)
+    rep.rule("R19.5", "representation tag discipline in the assign functions", 8)
+    bitint.r19_5(prog, rep)
 READY = True
